@@ -44,21 +44,28 @@ def context_kinds(ea) -> Dict[str, Dict[str, Any]]:
                 kinds[name] = dict(is_loop=c.is_loop, labelled=c.labelled, stack_items=c.stack_items, is_try=False, handler_active=False, finalizer=False, line=c.line)
             # try regions: the declared state of the try context at every nested statement it encloses
             evs = e.events
-            flags: Dict[int, bool] = {}
-            for ev in evs:
-                if ev[0] == "ctx-flag":
-                    flags[ev[1]] = ev[3]
-                if ev[0] == "stmt":
-                    for c in e.ctxs:
-                        if not c.is_try or ev[1] == c.finalizer:
-                            continue
-                        # is the context on the stack at this event?  (pushed before, popped after)
-                        region = {"node.block": "try-block", "node.handler.body": "catch-body"}.get(ev[1])
-                        if region is None:
-                            continue
-                        has_fin = bool(e.dec.get(c.finalizer)) if c.finalizer else False
-                        nm = f"{region}{'+finally' if has_fin else ''}"
-                        kinds.setdefault(nm, dict(is_loop=False, labelled=False, stack_items=c.stack_items, is_try=True, handler_active=flags.get(c.line, False), finalizer=has_fin, line=c.line))
+            by_line = {c.line: c for c in e.ctxs}
+            for c in e.ctxs:
+                # the context under which the rethrowing copy of a finally block is compiled (exception on the stack)
+                if c.is_try and not c.finalizer and c.stack_items:
+                    kinds.setdefault("finally-rethrow", dict(is_loop=False, labelled=False, stack_items=c.stack_items, is_try=True, handler_active=False, finalizer=False, line=c.line))
+            for i, ev in enumerate(evs):
+                if ev[0] != "stmt":
+                    continue
+                region = {"node.block": "try-block", "node.handler.body": "catch-body"}.get(ev[1])
+                if region is None or i == 0 or evs[i - 1][0] != "ctxs":
+                    continue
+                # the try context this statement is compiled under: the innermost one on the stack right now
+                on_stack = [x for x in evs[i - 1][1] if x[3]]
+                if not on_stack:
+                    continue  # the region is compiled with no try context on the stack (catch body without finally)
+                line, active, fin, _ = on_stack[-1]
+                c = by_line.get(line)
+                if c is None:
+                    continue
+                has_fin = bool(e.dec.get(c.finalizer)) if c.finalizer else False
+                nm = f"{region}{'+finally' if has_fin else ''}"
+                kinds.setdefault(nm, dict(is_loop=False, labelled=False, stack_items=c.stack_items, is_try=True, handler_active=bool(active), finalizer=has_fin, line=c.line))
     return kinds
 
 
@@ -226,11 +233,13 @@ def check(rec) -> Dict[str, Optional[str]]:
                     res["finalizers"] = res["finalizers"] or f"{where}: the finally block is compiled while its own try (or a context inside it) is still on loop_stack: a break/return inside the finally block would run it again"
                 extra = [c for c in snap if c not in rec["stack"]]
                 pend = sum(getattr(c, "stack_items", 0) for c in extra)
-                want_pend = 1 if (what == "return" and rec.get("has_arg")) else 0
+                # return keeps the operands of the contexts it has already left (RETURN discards them with the frame):
+                # they and the return value wait on the stack while the finally block runs
+                want_pend = ((1 if rec.get("has_arg") else 0) + sum(c.stack_items for c in rec["stack"][i + 1:])) if what == "return" else 0
                 if [c for c in snap if c in outer] != outer:
                     res["finalizers"] = res["finalizers"] or f"{where}: the finally block is compiled without the contexts that enclose its try on loop_stack"
                 if pend != want_pend:
-                    res["operands"] = res["operands"] or f"{where}: while the finally block is compiled {want_pend} return value(s) wait on the operand stack but the contexts declare {pend}: a break/continue inside the finally block leaves {'the value behind' if pend < want_pend else 'one operand too few'}"
+                    res["operands"] = res["operands"] or f"{where}: while the finally block is compiled {want_pend} operand(s) (return value, operands of the contexts already left) wait on the stack but the contexts declare {pend}: a break/continue inside the finally block leaves {'them behind' if pend < want_pend else 'too few operands'}"
     if rec["final_stack"] != rec["stack"] and [id(x) for x in rec["final_stack"]] != [id(x) for x in rec["stack"]]:
         res["finalizers"] = res["finalizers"] or f"{where}: loop_stack is not restored after the jump was compiled"
     return res
